@@ -134,6 +134,7 @@ PROPS = {
         not_yet_proved=[],
     ),
     "C09": dict(
+        extra_modules=["CstModel.Props.GenBuilder"],   # Gen.b_*: the builder's stack operations as transcribed from the source are the model's
         runs=runs([("checkpoints", "release")],
                   [("checkpoints", "release"), ("checkpoints", "debug"), ("checkpoints", "lasso")]),
         rule="cases = corpus of documented usage patterns + every sequence of length <= 5 (thorough 6) over {start, token, finish_node, checkpoint (<=2), "
